@@ -335,19 +335,37 @@ def rule_cell_equations(ctx):
         score_e, flag_e = rc[1]
         for o in sorted(orderings):
             key = "fuzzy_optimal::p_score|%s" % o
-            # flag
-            if flag_e[0] == "const":
-                flag = bool(flag_e[1])
-            elif flag_e[0] == "bin" and flag_e[1] in ("Gt", "Ge", "Lt", "Le", "Eq", "Ne") and {flag_e[2], flag_e[3]} == {sm, ss}:
-                st = {"Gt": {"gt"}, "Ge": {"gt", "eq"}, "Lt": {"lt"}, "Le": {"lt", "eq"}, "Eq": {"eq"}, "Ne": {"lt", "gt"}}[flag_e[1]]
-                oo = o if (flag_e[2], flag_e[3]) == (sm, ss) else flip(o)
-                flag = oo in st
-            else:
+            # flag / score: any expression over the two candidates built from max, min and comparisons is a function
+            # of their ordering alone: evaluate it on one representative pair per ordering
+            rep = {"gt": (2, 1), "eq": (1, 1), "lt": (1, 2)}[o]
+
+            def num(e_):
+                if e_ == sm:
+                    return rep[0]
+                if e_ == ss:
+                    return rep[1]
+                if e_[0] == "const" and isinstance(e_[1], (int, bool)):
+                    return int(e_[1])
+                if e_[0] == "call" and e_[1] in ("max", "min") and len(e_[2]) == 2:
+                    a_, b_ = num(e_[2][0]), num(e_[2][1])
+                    return None if a_ is None or b_ is None else (max(a_, b_) if e_[1] == "max" else min(a_, b_))
+                if e_[0] == "bin" and e_[1] in ("Gt", "Ge", "Lt", "Le", "Eq", "Ne"):
+                    a_, b_ = num(e_[2]), num(e_[3])
+                    if a_ is None or b_ is None:
+                        return None
+                    return int({"Gt": a_ > b_, "Ge": a_ >= b_, "Lt": a_ < b_, "Le": a_ <= b_, "Eq": a_ == b_, "Ne": a_ != b_}[e_[1]])
+                if e_[0] == "un" and e_[1] == "Not":
+                    a_ = num(e_[2])
+                    return None if a_ is None else int(not a_)
+                return None
+            fv = num(flag_e)
+            if fv is None:
                 ctx.fail_closed("p_score: back-pointer flag %s not evaluable" % repr(flag_e)[:80])
                 continue
+            flag = bool(fv)
+            sv = num(score_e)
             want_flag = (o == "gt")
-            okscore = (score_e == sm and o in ("gt", "eq")) or (score_e == ss and o in ("lt", "eq")) or \
-                      (score_e[0] == "call" and score_e[1] == "max" and set(score_e[2]) == {sm, ss})
+            okscore = sv is not None and sv == max(rep)
             rel_txt = {"lt": "<", "eq": "==", "gt": ">"}[o]
             if flag != want_flag:
                 ctx.violation(key + "|backpointer", site(ps, 0),
